@@ -38,6 +38,10 @@ CLAIMED = {
    text="Differential monitor restricted to failing calls: every case of the C01 situation matrix, four invalid-name variants of its main operation, and 60 (quick) / 3000 (thorough) random histories per writable stack are issued with the caller's top-level name through 19 layer stacks (mem; mount with the target 0/1/2 mounts deep and below a mounted directory; generic Sub of mem, of a mount, above a mount, of a Sub; os.FS under 1..3 Sub roots; cache; tar) and on a flattened mirror in one os directory. Every subject failure must be *PathError/*LinkError, carry the path os names (never empty, absolute or inner), and match os's sentinel when that is one of the seven.",
    note="Reference paths are Go os error paths made relative to the mirror root; for invalid names the expectation is ErrInvalid naming the name passed. Cache and tar stacks issue read operations only. Known: look-ups through a regular file answer ErrNotExist instead of ErrNotDir (F03), keyed by operation and coarse situation.",
    technique="differential runtime monitor of error type, path fields and sentinel class against the os package across composition layers"),
+ "C06": dict(level="exploration", design="4/C06",
+   text="Twin execution under the race detector: every constituent FS exists twice (inside the mount FS / stand-alone clone); each operation of a seeded history through the mount FS is mirrored on the stand-alone twin that an independent longest-whole-element-prefix model selects, at the remainder path, and afterwards ALL twins must be equal and the results must agree, so a wrong target, a wrong remainder or a side effect elsewhere is visible at the step it happens. Cross-mount renames are checked against 'moved with the same bytes and mode, or failed with both sides unchanged'. All subsets of six mount points (nested and string-prefix look-alikes) up to size 2 plus 20 larger (quick) / up to size 4 (thorough), repeated because the mount table's iteration order is randomised. AddMount preconditions follow a model; 2..8 goroutines mounting one point are released inside the check-then-insert window (150 / 3000 groups): exactly one wins.",
+   note="Constituents are mem.FS. A cross-mount rename that fails where the model could complete it is counted, not flagged. Distinct MountPoints() orders observed are reported in the evidence.",
+   technique="twin-execution runtime monitor with an independent routing model; race detector and gated concurrent AddMount groups"),
 }
 NOT_YET = "monitor not built yet in this session (see DESIGN.md section 4 for the planned runtime monitor)"
 props = [json.loads(l)["id"] for l in open("/verif/properties.jsonl")]
